@@ -27,6 +27,7 @@ ASSUMPTIONS = [
     "addresses are non-negative; cases outside are discarded (counted), never judged",
     "`array` on an address that already holds an array installs a fresh all-undefined array of the new length (Arrays.init_new_array)",
     "simulation mode (no register width overflow checks)",
+    "ret_arr hands the application's own list to the host (in-process shared memory): later stores are host-visible, a re-declared address is not",
 ]
 SHARDS = {"quick": 2, "thorough": 16}
 BOUND = 400
@@ -134,15 +135,21 @@ def st_case(draw, max_len=25):
             subs.append(prefix + fixed)
         else:
             subs.append(_finish(body))
-    return {"unit": unit, "subs": subs, "bound": BOUND}
+    return {"unit": unit, "subs": subs, "bound": BOUND, "hostlines": draw(st.booleans())}
 
 
 # ------------------------------------------------------------------ execution on both sides
 
 
-def to_instr(j):
+def to_instr(j, hostline=None):
     mn, ops = j
-    return g.instr_from_json("vanilla", [mn, ops])
+    ins = g.instr_from_json("vanilla", [mn, ops])
+    if hostline is not None:
+        # instructions built by the SDK can carry the line of the *host* program; it must not leak into fault reports
+        from netqasm.util.log import HostLine
+
+        ins.lineno = HostLine("app.py", hostline)
+    return ins
 
 
 def run_real(case):
@@ -154,7 +161,8 @@ def run_real(case):
     ex.init_new_application(0, case["unit"])
     results = []
     for sub_j in case["subs"]:
-        sub = Subroutine(instructions=[to_instr(j) for j in sub_j], app_id=0)
+        hl = case.get("hostlines")
+        sub = Subroutine(instructions=[to_instr(j, None if not hl else 1000 + 3 * k) for k, j in enumerate(sub_j)], app_id=0)
         ex.pc_trace = []
         ex.steps = 0
         ex.step_bound = case["bound"]
@@ -184,6 +192,8 @@ def run_real(case):
                 "qubits": {i: p for i, p in enumerate(um) if p is not None},
                 "used_phys": sorted(ex._used_physical_qubit_addresses),
                 "ret_log": list(ex.ret_log),
+                "shared_arrays": {a: list(v) for a, v in sorted(ex._shared_memories[0]._arrays._arrays.items())},
+                "shared_regs": {f"{bank.name}{i}": v for bank, grp in ex._shared_memories[0]._registers.items() for i, v in grp._register.items() if v is not None},
             }
         )
     return results
@@ -227,7 +237,8 @@ def check(case) -> Dict[str, Any]:
         for _pc, taken in m.branch_log:
             if m.prog[_pc][0] != "jmp":
                 info["taken" if taken else "not_taken"] += 1
-        ref_results.append({"trace": list(m.trace), "fault": fault, "bound": hit_bound, "snap": state.snapshot(), "ret_log": list(state.ret_log)})
+        ref_results.append({"trace": list(m.trace), "fault": fault, "bound": hit_bound, "snap": state.snapshot(), "ret_log": list(state.ret_log),
+                            "shared_arrays": {a: list(v) for a, v in sorted(state.shared_arrays.items())}, "shared_regs": dict(sorted(state.shared_regs.items()))})
     real = run_real(case)
     for k, (r, e) in enumerate(zip(ref_results, real)):
         where = f"subroutine {k}"
@@ -256,6 +267,8 @@ def check(case) -> Dict[str, Any]:
         inj = list(e["qubits"].values())
         if len(set(inj)) != len(inj):
             raise Failure("state:qubit-map-not-injective", case, f"{where}: unit module {e['qubits']}")
+        if e["shared_arrays"] != r["shared_arrays"] or dict(sorted(e["shared_regs"].items())) != r["shared_regs"]:
+            raise Failure("shared-memory-state", case, f"{where}: host-visible shared memory after the subroutine: executor arrays {e['shared_arrays']} regs {e['shared_regs']}; reference arrays {r['shared_arrays']} regs {r['shared_regs']}")
         if e["ret_log"] != r["ret_log"]:
             raise Failure("shared-memory", case, f"{where}: values returned to the host differ: executor {e['ret_log']} reference {r['ret_log']}")
     return info
